@@ -81,15 +81,7 @@ impl WriteAheadLog {
             // Create Walrus with a keyed instance for additional isolation
             let result = wal::Walrus::with_consistency_and_schedule_for_key(
                 &wal_key,
-                // Recovery replays the whole log with consuming reads (read_all). With
-                // StrictlyAtOnce the engine persists that read position, so the second and
-                // every later reopen replayed only what had been appended since the previous
-                // one and the store forgot its vote, committed id, purge point and entries.
-                // AtLeastOnce with an unreachable persist interval keeps the position in
-                // memory only, so every reopen replays from the start.
-                wal::ReadConsistency::AtLeastOnce {
-                    persist_every: u32::MAX,
-                },
+                wal::ReadConsistency::StrictlyAtOnce,
                 schedule,
             );
 
